@@ -54,11 +54,13 @@ func init() {
 	})
 	register(&Property{
 		ID: "C57",
-		Explanation: "Decides the structural form of 'unique match or error' in restic.Find (the plan listed this property as not applicable; re-examination showed that the clause is carried by guards, not by a frozen source fragment): (unique-prefix-match) the listing callback records an ID only on the edge where the prefix equals id.String()[:len(prefix)] and only while no match is recorded yet; with a match already recorded, a further ID with the prefix makes the callback return a non-nil error; Find returns a nil error only if the listing returned nil and a match is recorded, and then returns that recorded ID. Not decided: that the listing enumerates every file of the type (backend contract) and case/length handling of the prefix beyond the comparison shown.",
+		Explanation: "Decides the structural form of 'unique match or error' in restic.Find (the plan listed this property as not applicable; re-examination showed that the clause is carried by guards, not by a frozen source fragment): (unique-prefix-match) the listing callback records an ID only on the edge where the prefix equals id.String()[:len(prefix)] and only while no match is recorded yet; with a match already recorded, a further ID with the prefix makes the callback return a non-nil error; Find returns a nil error only if the listing returned nil and a match is recorded, and then returns that recorded ID; (find-errors-propagate) at each of the call sites of Find (key remove, repair snapshots, debug, snapshot lookup) the error is returned or handed on before the function can return — the key hint of searchKey is exempt by name (a hint that does not resolve is logged and all keys are tried). Not decided: that the listing enumerates every file of the type (backend contract) and case/length handling of the prefix beyond the comparison shown.",
 		Assumptions: commonAssumptions,
 		Technique:   "static analysis: CFG edge cuts on the prefix test and the first-match test + path-sensitive error flow (go/ssa)",
-		Run:         func(c *eng.Ctx) { ruleUniquePrefixMatch(c) },
+		Run:         func(c *eng.Ctx) { ruleUniquePrefixMatch(c); ruleFindErrorsPropagate(c) },
 		Controls: []Control{
+			{Name: "key-remove-ignores-find-error", File: "cmd/restic/cmd_key_remove.go",
+				Old: "	id, err := restic.Find(ctx, repo, restic.KeyFile, idPrefix)\n	if err != nil {\n		return err\n	}\n", New: "	id, err := restic.Find(ctx, repo, restic.KeyFile, idPrefix)\n	if err != nil {\n		id = restic.ID{}\n	}\n", Rule: "find-errors-propagate"},
 			{Name: "second-match-overwrites-first", File: "internal/restic/backend_find.go",
 				Old: "			if match.IsNull() {\n				match = id\n			} else {\n				return &MultipleIDMatchesError{prefix}\n			}", New: "			match = id", Rule: "unique-prefix-match"},
 			{Name: "no-match-returns-null-id", File: "internal/restic/backend_find.go",
@@ -67,11 +69,15 @@ func init() {
 	})
 	register(&Property{
 		ID: "C54",
-		Explanation: "Decides the accounting structure of stats --mode restore-size, not the sums (the plan listed this property as not applicable; the 'hard links once per snapshot' clause turned out to be a test-and-set shape): (restore-size-accounting) in restore-size mode every visited node increments TotalFileCount on every path; TotalSize is increased only for a node with a single link, a directory, a node whose (inode, device) was not seen before in this snapshot, or a node without inode number; on the not-seen-before edge the pair is recorded in the hard link index before the size is added; Has and Add are keyed by the node's inode; and every snapshot is walked with a hard link index created for it. Not decided: that node sizes equal the bytes a restore writes, and the cross-snapshot totals.",
+		Explanation: "Decides the accounting structure of stats --mode restore-size, not the sums (the plan listed this property as not applicable; the 'hard links once per snapshot' clause turned out to be a test-and-set shape): (restore-size-accounting) in restore-size mode every visited node increments TotalFileCount on every path; TotalSize is increased only for a node with a single link, a directory, a node whose (inode, device) was not seen before in this snapshot, or a node without inode number; on the not-seen-before edge the pair is recorded in the hard link index before the size is added; Has and Add are keyed by the node's inode; and every snapshot is walked with a hard link index created for it; (stats-walk-complete, stats-errors-propagate) the walk callback returns only nil, the error it was handed or an error it constructs — never a skip sentinel, which would leave a subtree out of the totals —, returns the error when the walker could not load a node, statsWalkSnapshot reports success only if walker.Walk returned nil, and its callers hand its error on. Not decided: that node sizes equal the bytes a restore writes, and the cross-snapshot totals.",
 		Assumptions: commonAssumptions,
 		Technique:   "static analysis: CFG edge cuts over the counting-mode branch + test-and-set shape of the hard link index (go/ssa)",
-		Run:         func(c *eng.Ctx) { ruleHardlinkOnce(c) },
+		Run:         func(c *eng.Ctx) { ruleHardlinkOnce(c); ruleStatsWalkComplete(c) },
 		Controls: []Control{
+			{Name: "node-errors-left-out-of-totals", File: "cmd/restic/cmd_stats.go",
+				Old: "		if nodeErr != nil {\n			return nodeErr\n		}\n		if node == nil {\n			return nil\n		}\n		progress.Update(1, 0, uint64(node.Size))", New: "		if nodeErr != nil || node == nil {\n			return nil\n		}\n		progress.Update(1, 0, uint64(node.Size))", Rule: "stats-walk-complete"},
+			{Name: "walk-error-not-returned", File: "cmd/restic/cmd_stats.go",
+				Old: "	if err != nil {\n		return fmt.Errorf(\"walking tree %s: %v\", *snapshot.Tree, err)\n	}\n", New: "	if err != nil {\n		stats.SnapshotsCount--\n	}\n", Rule: "stats-walk-complete"},
 			{Name: "hardlinks-counted-every-time", File: "cmd/restic/cmd_stats.go",
 				Old: "				if !hardLinkIndex.Has(node.Inode, node.DeviceID) || node.Inode == 0 {\n					hardLinkIndex.Add(node.Inode, node.DeviceID, struct{}{})\n					stats.TotalSize += node.Size\n				}", New: "				hardLinkIndex.Add(node.Inode, node.DeviceID, struct{}{})\n				stats.TotalSize += node.Size", Rule: "restore-size-accounting"},
 			{Name: "first-sight-not-recorded", File: "cmd/restic/cmd_stats.go",
